@@ -739,6 +739,17 @@ def check_compound(ctx, case):
             return nsf.D2O_sld(comp, v, d, **dict(kw))
         return nsf.D2O_sld(comp, volume_fraction=v, D2O_fraction=d, **dict(kw))
     feat = dict(nl=atoms.get(H1, 0), hasD=HD in atoms, route=case['route'], form=case['form'], arg=arg)
+    if len(case['text']) % 3 == 0:
+        # requests the library refuses for this very compound (a keyword of the other function, an unknown one),
+        # caught by the caller, before the judged ones
+        for bad in (lambda: nsf.D2O_match(comp, volume_fraction=0.1, **dict(kw)),
+                    lambda: nsf.D2O_sld(comp, D2O_fraction=0.3, fraction=0.2, **dict(kw)),
+                    lambda: nsf.D2O_sld(comp, 0.5, 0.5, 0.5, **dict(kw))):
+            try:
+                bad()
+                ctx.count('refused_call.answered')
+            except Exception:
+                ctx.count('refused_call.refused')
     _check_grid(ctx, call, model, case['grid'], what, **feat)
     # defaults: volume_fraction=1, D2O_fraction=0
     got = nsf.D2O_sld(comp, **dict(kw))
